@@ -615,9 +615,12 @@ def preprocess_observation(
         space_shape = (observation_space.n,)
 
     elif isinstance(observation_space, spaces.MultiDiscrete):
-        # Need to add batch dimension prior to splitting
+        # Need to add batch dimension prior to splitting (the raw observation has
+        # one entry per sub-space, the one-hot encoded one has sum(nvec))
+        observation: torch.Tensor = maybe_add_batch_dim(
+            observation, (len(observation_space.nvec),)
+        )
         space_shape = (sum(observation_space.nvec),)
-        observation: torch.Tensor = maybe_add_batch_dim(observation, space_shape)
 
         # Tensor concatenation of one hot encodings of each Categorical sub-space
         observation = torch.cat(
